@@ -304,17 +304,19 @@ pub fn run(tier: &str) -> i32 {
     let canister_nets = if quick { vec![Network::Regtest, Network::Mainnet] } else { vec![Network::Regtest, Network::Mainnet, Network::Testnet] };
     let results: Vec<Out> = std::thread::scope(|sc| {
         let mut hs = vec![];
-        // (canister network, api access, canister behind the announced headers)
-        let mut variants: Vec<(Network, bool, bool)> = vec![];
+        // (canister network, api access, canister behind the announced headers, custom blocks source)
+        let mut variants: Vec<(Network, bool, bool, bool)> = vec![];
         for cn in &canister_nets {
             for access in [true, false] {
-                variants.push((*cn, access, false));
+                variants.push((*cn, access, false, false));
             }
         }
+        // forwarded to the *configured* source: a canister initialised with another one
+        variants.push((Network::Regtest, true, false, true));
         // the sync rule does not apply to send_transaction: same verdicts on a canister that
         // is more than two blocks behind the announced headers (sync flag on)
-        variants.push((Network::Regtest, true, true));
-        for (cn, access, unsynced) in variants {
+        variants.push((Network::Regtest, true, true, false));
+        for (cn, access, unsynced, custom_source) in variants {
             {
                 let bases = &bases;
                 hs.push(sc.spawn(move || {
@@ -322,6 +324,7 @@ pub fn run(tier: &str) -> i32 {
                     let mut cfg = WorldCfg::on(cn, 2);
                     cfg.api_access = access;
                     cfg.disable_if_not_synced = unsynced;
+                    cfg.custom_source = custom_source;
                     let mut world = crate::world::World::new(cfg.clone());
                     if unsynced {
                         let a = crate::chain::apply_ev(&mut world, &crate::chain::Ev::Hdr { on: 0, len: 4 });
@@ -333,7 +336,10 @@ pub fn run(tier: &str) -> i32 {
                         }
                         out.count("unsynced_canister_variants");
                     }
-                    let source = with_state(|s| s.blocks_source);
+                    let source = crate::world::configured_source(&cfg);
+                    if custom_source {
+                        out.count("custom_blocks_source_variants");
+                    }
                     let mut seen: HashSet<u64> = HashSet::new();
                     for (name, base) in bases.iter() {
                         for payload in mutations(base, quick) {
@@ -353,7 +359,7 @@ pub fn run(tier: &str) -> i32 {
                                 out.states += 1;
                                 seen.insert(fp64(&payload));
                                 let hist = || json!({"base": name, "payload": hex::encode(&payload), "canister_network": cn.to_string(),
-                                    "requested_network": rn.to_string(), "api_access": access, "canister_behind_announced_headers": unsynced});
+                                    "requested_network": rn.to_string(), "api_access": access, "canister_behind_announced_headers": unsynced, "custom_blocks_source": custom_source});
                                 let expect_refusal = !access || rn != cn;
                                 match r {
                                     Err(p) => {
@@ -396,7 +402,7 @@ pub fn run(tier: &str) -> i32 {
                                                 && sent[0].1.network == cn;
                                             if !fwd_ok || c1 != c0 + 1 {
                                                 out.set_history(hist());
-                                                out.violation("forwarding", None, json!({"forwarded": sent.len(), "counted": c1 - c0,
+                                                out.violation("forwarding", None, json!({"forwarded": sent.len(), "counted": c1 - c0, "destination": sent.first().map(|s| s.0.to_text()), "configured_source": source.to_text(),
                                                     "identical_bytes": sent.first().map(|s| s.1.transaction == payload)}));
                                             }
                                         }
